@@ -138,7 +138,8 @@ type Axiom struct {
 	Expr    ast.Expr
 	Where   string
 	Lemma   bool // proved by the engine (as an obligation) rather than assumed
-	Params  []string   // lemma parameters (integers)
+	Params  []string   // lemma parameters
+	Sorts   []string   // their sorts ("Int" unless written "p: (Array Int Int)")
 	By      string     // induction variable of a lemma ("" = no induction)
 	Pats    []ast.Expr // trigger terms of a lemma (multi-pattern)
 	Index   int        // declaration order (a lemma may use earlier lemmas only)
@@ -658,7 +659,7 @@ func (lib *SpecLib) loadFile(path, pkgPath string) error {
 		case "lemma", "auxlemma":
 			// lemma name(p, q, s) by s [trigger; trigger]: expr
 			// (auxlemma: available only for proving later lemmas, never instantiated in function units)
-			re := regexp.MustCompile(`^(\w+)\(([\w, ]*)\)\s*(?:by\s+(\w+)\s*)?\[(.*?)\]\s*:\s*(.+)$`)
+			re := regexp.MustCompile(`^(\w+)\(([\w, :()]*?)\)\s*(?:by\s+(\w+)\s*)?\[(.*?)\]\s*:\s*(.+)$`)
 			m := re.FindStringSubmatch(it.rest)
 			if m == nil {
 				return fmt.Errorf("%s: bad lemma (want: name(params) by v [triggers]: expr)", it.where)
@@ -668,9 +669,15 @@ func (lib *SpecLib) loadFile(path, pkgPath string) error {
 				return err
 			}
 			ax := &Axiom{Name: m[1], Text: m[5], Expr: e, Where: it.where, Lemma: true, Aux: it.kw == "auxlemma", By: m[3], Index: len(lib.Axioms)}
-			for _, t := range strings.Split(m[2], ",") {
+			for _, t := range splitTop(m[2], ',') {
 				if t = strings.TrimSpace(t); t != "" {
+					srt := "Int"
+					if i := strings.Index(t, ":"); i >= 0 {
+						srt = strings.TrimSpace(t[i+1:])
+						t = strings.TrimSpace(t[:i])
+					}
 					ax.Params = append(ax.Params, t)
+					ax.Sorts = append(ax.Sorts, srt)
 				}
 			}
 			for _, t := range splitTop(m[4], ';') {
